@@ -52,6 +52,14 @@ type c10Shape struct {
 	Mrbody []string `json:"mrbody"`
 	Opts   []string `json:"opts"`
 	Feat   []string `json:"feat"`
+	Server []struct {
+		N     string  `json:"n"`
+		URL   string  `json:"url"`
+		Vars  [][]any `json:"vars"`
+		First string  `json:"first"`
+		Level string  `json:"level"`
+		Base  string  `json:"base"`
+	} `json:"server"`
 }
 
 type M = map[string]any
@@ -92,6 +100,8 @@ func (s *c10Shape) wrapped(comps M) (M, string) {
 		return leaf(), h
 	case "array":
 		return M{"type": "array", "items": leaf()}, "[" + h + "," + h + "]"
+	case "array_unique":
+		return M{"type": "array", "items": leaf(), "uniqueItems": true}, "[" + h + "," + h + "," + h + "]"
 	case "array_minmax_unique":
 		return M{"type": "array", "items": leaf(), "minItems": 3, "maxItems": 1, "uniqueItems": true}, "[" + h + "," + h + "]"
 	case "array_of_array":
@@ -384,6 +394,8 @@ func (s *c10Shape) bodyFor(mt, enc, container string) ([]byte, string) {
 			case "ct_csv":
 				p.ct = "text/csv"
 				p.data = "a,b\n" + s.prim(x, id) + ",\"q\"\n"
+			case "ct_yaml":
+				p.ct = "application/yaml"
 			}
 			return p
 		}
@@ -586,6 +598,8 @@ func c10ShapeDoc(s *c10Shape) (M, []string, *c10Req, *c10Resp) {
 				mtObj["encoding"] = M{"x": M{"contentType": "multipart/form-data"}}
 			case "ct_csv":
 				mtObj["encoding"] = M{"x": M{"contentType": "text/csv, application/zip"}}
+			case "ct_yaml":
+				mtObj["encoding"] = M{"x": M{"contentType": "application/yaml"}}
 			}
 		}
 		if s.dm("examples_wrong_type") {
@@ -662,6 +676,39 @@ func c10ShapeDoc(s *c10Shape) (M, []string, *c10Req, *c10Resp) {
 		resp.header.Set("Content-Type", ct)
 	default:
 		panic("harness: c10 site kind " + s.Site.Kind)
+	}
+
+	// the servers object and the request that matches it
+	for _, sv := range s.Server {
+		vars := M{}
+		for _, v := range sv.Vars {
+			o := M{"default": v[1]}
+			if en := asSlice(v[2]); len(en) > 0 {
+				o["enum"] = en
+			}
+			vars[v[0].(string)] = o
+		}
+		mk := func(u string) M {
+			o := M{"url": u}
+			if len(vars) > 0 {
+				o["variables"] = vars
+			}
+			return o
+		}
+		list := []any{}
+		if sv.First != "" {
+			list = append(list, mk(sv.First))
+		}
+		list = append(list, mk(sv.URL))
+		switch sv.Level {
+		case "op":
+			op["servers"] = list
+		case "path":
+			pathItem["servers"] = list
+		default:
+			doc["servers"] = list
+		}
+		req.base = sv.Base
 	}
 
 	// document-level modifiers that do not depend on the site
